@@ -182,6 +182,7 @@ class Hooks:
     after_elem = None
     on_refine_call = None
     join_special = None
+    fork = None             # (A, env, eid) -> None | list of envs replacing env after element eid
 
 
 class Analyzer:
@@ -767,9 +768,9 @@ class Analyzer:
                 del env[k]
         if isinstance(val, V) and sym and (sym in val.le or sym in val.lt):
             val = val.copy(le=val.le - {sym}, lt=val.lt - {sym})
-        if isinstance(val, V) and val.tag == 'fresh0':
+        if isinstance(val, V) and isinstance(val.tag, str) and val.tag.startswith('fresh0'):
             env['$zero'] = frozenset(set(env.get('$zero', ())) | {key + '->', key + '['})
-        if isinstance(val, V) and val.tag == 'fresh' and self.uninit_summaries:
+        if isinstance(val, V) and isinstance(val.tag, str) and val.tag.startswith('fresh') and not val.tag.startswith('fresh0') and self.uninit_summaries:
             # malloc'ed memory: nothing may be read before it is written, so an element summary below this
             # pointer describes the *written* elements only (DESIGN 3.3/K4 "written-elements invariant")
             env['$uninit'] = frozenset(set(env.get('$uninit', ())) | {key + '->', key + '['})
@@ -1880,15 +1881,38 @@ class Analyzer:
         """-> {succ: {pkey: env}}"""
         blk = self.F.blocks[b]
         outs = {}
+        work = []
         for pk, env0 in states.items():
             env = env0.copy()
             # temporaries of conditional arms flow in; others are per block
             tmp_in = env.get('$tmp') or {}
             env['$tmp'] = dict(tmp_in)
-            for e in blk['elems']:
+            work.append((env, 0))
+        elems = blk['elems']
+        fork = self.hooks.fork if self.hooks is not None and getattr(self.hooks, 'fork', None) else None
+        done = []
+        while work:
+            env, i0 = work.pop()
+            i = i0
+            while i < len(elems):
+                e = elems[i]
                 self.ev(env, e)
                 if self.hooks and self.hooks.after_elem:
                     self.hooks.after_elem(self, env, e)
+                i += 1
+                if fork is not None:
+                    # a client may split the state after an element (outcomes of a call with a relational summary)
+                    alts = fork(self, env, e)
+                    if alts is not None:
+                        for a in alts[1:]:
+                            work.append((a, i))
+                        if not alts:
+                            env = None
+                            break
+                        env = alts[0]
+            if env is not None:
+                done.append(env)
+        for env in done:
             succs = blk['succs']
             term = blk.get('term')
             cond = term.get('cond') if term else None
